@@ -80,7 +80,10 @@ def harnesses(tier, seed):
     for cname, fields in CLASSES.items():
         variant = "codec" if cname == "D4" else "mixin"
         subsets = [(f,) for f in fields]
-        subsets += list(itertools.combinations(fields, 2)) if tier != "quick" or cname in ("D1",) else []
+        if tier != "quick":
+            subsets += list(itertools.combinations(fields, 2))
+        elif cname == "D1":
+            subsets += [("a", "b"), ("b", "d"), ("a", "c")]
         for bad in subsets:
             s = Schema(cname, cname, PRELUDE)
             kw = "bad=%r" % (tuple(bad),)
